@@ -1,29 +1,43 @@
 (* C17 — exported theorems only: each is closed by [exact] and followed by Print Assumptions.
    [fx] is the variant of the controller (Model.recheck_same_node; true = /repo since 025e424). *)
 From Coq Require Import List ZArith Bool.
-From Verif Require Import C17.Model C17.Spec C17.Codec C17.Proofs_trace C17.Proofs_spec C17.Proofs C17.Proofs_codec.
+From Verif Require Import C17.Model C17.Spec C17.Codec C17.Proofs_ver C17.Proofs_trace C17.Proofs_spec C17.Proofs C17.Proofs_codec.
 Import ListNotations.
 Open Scope Z_scope.
 
-(* ---- one reconcile: ANY persisted job, ANY environment, ANY fault bits ---- *)
+(* [W s] (Proofs_ver): the assumed-cache guard is armed (the controller remembers the version the job
+   has now) or the informer has no older version of the job to serve. It holds for the job as created,
+   is preserved by every operation (c17_W_invariant) and makes the controller skip every lagging read
+   (c17_lagging_read_skipped). *)
+Theorem c17_W_invariant : forall fx s o, W s -> W (fst (step fx s o)).
+Proof. exact W_step. Qed.
+Print Assumptions c17_W_invariant.
+
+Theorem c17_lagging_read_skipped : forall fx s f, W s -> lag_of s <> O ->
+  reconcile fx s f = (unlag s, []).
+Proof. exact lagging_read_skipped. Qed.
+Print Assumptions c17_lagging_read_skipped.
+
+(* ---- one reconcile: ANY persisted job, ANY environment, ANY fault bits, ANY informer lag ---- *)
 
 (* reservation-first mode: an eviction call is only issued while the reservation exists, is not
    pending, not expired, is scheduled (or its preemption is complete), is not consumed by a pod, and
    sits on another node than the pod *)
-Theorem c17_evict_guard : forall s f x,
+Theorem c17_evict_guard : forall s f x, W s ->
   direct (sj s) = false -> In x (snd (reconcile true s f)) -> is_evict x = true ->
   secured (est x) /\ other_node (est x).
 Proof. exact reconcile_evict_guard. Qed.
 Print Assumptions c17_evict_guard.
 
-(* succeeded / failed / aborted: the reconcile is the identity and issues no call at all *)
-Theorem c17_terminal_absorbing : forall fx s f,
-  terminal (phase (sj s)) = true -> reconcile fx s f = (s, []).
+(* succeeded / failed / aborted: job and reservation untouched, no call at all *)
+Theorem c17_terminal_absorbing : forall fx s f, W s ->
+  terminal (phase (sj s)) = true ->
+  sj (fst (reconcile fx s f)) = sj s /\ sr (fst (reconcile fx s f)) = sr s /\ snd (reconcile fx s f) = [].
 Proof. exact reconcile_terminal. Qed.
 Print Assumptions c17_terminal_absorbing.
 
 (* a reconcile that fails the job for timeout leaves no reservation behind (job with a ReservationRef) *)
-Theorem c17_timeout_deletes_reservation : forall fx s f,
+Theorem c17_timeout_deletes_reservation : forall fx s f, W s ->
   timed_out (sj s) (sj (fst (reconcile fx s f))) = true -> rref (sj s) = true ->
   sr (fst (reconcile fx s f)) = None.
 Proof. exact reconcile_timeout. Qed.
@@ -31,7 +45,7 @@ Print Assumptions c17_timeout_deletes_reservation.
 
 (* without API errors: at most one eviction call per reconcile, none once an eviction is recorded in
    the job status, and the record is never lost *)
-Theorem c17_reconcile_evicts_once : forall fx s f, existsb (fun b => b) f = false ->
+Theorem c17_reconcile_evicts_once : forall fx s f, W s -> existsb (fun b => b) f = false ->
   (length (filter is_evict (snd (reconcile fx s f))) <= 1)%nat
   /\ (cEv (sj s) = C_TRUE \/ cEv (sj s) = C_FALSE ->
       filter is_evict (snd (reconcile fx s f)) = []
@@ -39,24 +53,25 @@ Theorem c17_reconcile_evicts_once : forall fx s f, existsb (fun b => b) f = fals
 Proof. exact reconcile_no_faults_once. Qed.
 Print Assumptions c17_reconcile_evicts_once.
 
-(* ---- all histories of reconciles, environment events and faults, from ANY start state ---- *)
+(* ---- all histories of reconciles, environment events, faults, lagging reads and restarts, from ANY
+        well-versioned start state ---- *)
 
-Theorem c17_trace_evict_guard : forall fx ops s, direct (sj s) = false ->
+Theorem c17_trace_evict_guard : forall fx ops s, W s -> direct (sj s) = false ->
   forall o e, In o (obs_from fx s ops) -> In e (o_effs o) -> is_evict e = true ->
   secured (est e) /\ (fx = true -> other_node (est e)).
 Proof. exact trace_guard. Qed.
 Print Assumptions c17_trace_evict_guard.
 
-Theorem c17_trace_terminal_absorbing : forall fx ops s, absorbing (sj s) (obs_from fx s ops).
+Theorem c17_trace_terminal_absorbing : forall fx ops s, W s -> absorbing (sj s) (obs_from fx s ops).
 Proof. exact trace_absorbing. Qed.
 Print Assumptions c17_trace_terminal_absorbing.
 
-Theorem c17_trace_timeout_deletes : forall fx ops s, timeout_deletes (sj s) (obs_from fx s ops).
+Theorem c17_trace_timeout_deletes : forall fx ops s, W s -> timeout_deletes (sj s) (obs_from fx s ops).
 Proof. exact trace_timeout. Qed.
 Print Assumptions c17_trace_timeout_deletes.
 
 (* with no API errors anywhere in the history the job evicts at most once *)
-Theorem c17_evict_at_most_once : forall fx ops s, at_most_once ops (obs_from fx s ops).
+Theorem c17_evict_at_most_once : forall fx ops s, W s -> at_most_once ops (obs_from fx s ops).
 Proof. exact trace_once. Qed.
 Print Assumptions c17_evict_at_most_once.
 
@@ -73,7 +88,7 @@ Print Assumptions c17_core_all_histories.
 
 (* clause 8 (strict reading of "an expired job deletes its reservation") can only fail at a step that
    started WITHOUT a recorded ReservationRef — from any start state, in both variants *)
-Theorem c17_leak_only_unrecorded : forall fx ops s mine,
+Theorem c17_leak_only_unrecorded : forall fx ops s mine, W s ->
   leak_only_unrecorded mine (sj s) ops (obs_from fx s ops) = true.
 Proof. exact trace_leak_shape. Qed.
 Print Assumptions c17_leak_only_unrecorded.
@@ -144,3 +159,12 @@ Example c17_ex_same_node :
   count_evicts (observe ex_job ops) = 0%nat
   /\ reason (o_job (last (observe ex_job ops) (mkObs [] ex_job None))) = RS_FORBIDDEN.
 Proof. vm_compute. split; reflexivity. Qed.
+(* a lagging informer read one write behind (the version without the Evicting condition) right after
+   the evicting reconcile: skipped by the guard, still exactly one eviction; W holds at the start *)
+Example c17_ex_lagging :
+  let ops := [OSetPod (Some ex_pod1); OReconcile [];
+              OSetRes (Some (mkRes true RP_AVAILABLE 2 SC_SCHEDULED false 1 0 false false)); OReconcile [];
+              OStale 1; OReconcile []; OReconcile []] in
+  count_evicts (observe ex_job ops) = 1%nat /\ W (init_state ex_job)
+  /\ lag_of (fst (last (run true (init_state ex_job) (firstn 5 ops)) (init_state ex_job, []))) = 1%nat.
+Proof. vm_compute. repeat split. right. reflexivity. Qed.
